@@ -741,8 +741,10 @@ pub fn execute(ctx: &Ctx, scv: &serde_json::Value, rd: &RunDir, stats: &mut Stat
                     continue;
                 }
                 stats.bump(&format!("fault.{}", label.split(':').next().unwrap_or("")));
-                if label.starts_with("rewrite:") {
+                if label.starts_with("rewrite:") && !label.contains('+') {
                     stats.bump(&format!("fault.{label}"));
+                } else if label.contains('+') {
+                    stats.bump("fault.rewrite-pair");
                 }
                 let dmg_s = String::from_utf8_lossy(&damaged).to_string();
                 let o = p.consumer(&damaged, &["--output-format", "zerv"], t0, stats);
